@@ -257,6 +257,9 @@ func c20Close(g *rand.Rand, log *[]string) (string, error) {
 		return fmt.Sprintf("successor's CLIENT LIST shows %d clients, expected only its own: %q", n, cl2.Str), nil
 	}
 	srv.Ctl("CLOSE 1", 10*time.Second)
+	if why := c20Trace(srv, false); why != "" {
+		return why, nil
+	}
 	return "", nil
 }
 
@@ -400,7 +403,11 @@ func c20Swarm(g *rand.Rand, log *[]string) (string, error) {
 				c.Close()
 			}
 			wg.Wait()
-			return fmt.Sprintf("cycle %d: Close() did not return promptly (%q after %v) while %d clients were sending PING in a loop", cy, r, el, n), nil
+			why := fmt.Sprintf("cycle %d: Close() did not return promptly (%q after %v) while %d clients were sending PING in a loop", cy, r, el, n)
+			if t := c20Trace(srv, false); t != "" {
+				why += "; " + t
+			}
+			return why, nil
 		}
 		if why := lateVerdict(late); why != "" {
 			return fmt.Sprintf("cycle %d: %s", cy, why), nil
@@ -411,6 +418,12 @@ func c20Swarm(g *rand.Rand, log *[]string) (string, error) {
 				return fmt.Sprintf("cycle %d: connection %d is still open after Close() had returned", cy, i), nil
 			}
 			c.Close()
+		}
+		for _, c := range late {
+			c.Close()
+		}
+		if why := c20Trace(srv, true); why != "" {
+			return fmt.Sprintf("cycle %d: %s", cy, why), nil
 		}
 	}
 	*log = append(*log, fmt.Sprintf("%d start/stop cycles on port %d with 8-24 busy clients each", cycles, port))
@@ -561,11 +574,36 @@ func c20TwoInstances(g *rand.Rand, log *[]string) (string, error) {
 		}
 		c.Close()
 	}
+	if why := c20Trace(srv, false); why != "" {
+		return why, nil
+	}
 	return "", nil
+}
+
+var c20Model *Model
+var c20Cxn cxnCheck
+
+// the recorded event-loop labels of every connection against Cxn.v ("" = all runs are runs of the model)
+func c20Trace(srv *Server, mustBeDone bool) string {
+	if c20Model == nil || !srv.Alive() {
+		return ""
+	}
+	why, _, err := checkCxnLogs(srv, c20Model, mustBeDone, &c20Cxn)
+	if err != nil {
+		return "connection-loop trace check failed: " + err.Error()
+	}
+	return why
 }
 
 func runC20(cfg runCfg, res *Result) error {
 	g := rand.New(rand.NewSource(cfg.seed))
+	if mdl, err := startModel(cfg.modelPath); err == nil {
+		c20Model = mdl
+		c20Cxn = cxnCheck{}
+		defer func() { mdl.Close(); c20Model = nil }()
+	} else {
+		return err
+	}
 	n := 10
 	if cfg.tier == "thorough" {
 		n = 150
@@ -629,6 +667,7 @@ func runC20(cfg runCfg, res *Result) error {
 		}
 	}
 	res.Distinct = res.Histories
+	res.Extra["connection_loop_traces"] = c20Cxn
 	return nil
 }
 
